@@ -395,9 +395,13 @@ pub fn digest_out_opt(d: u64, o: &RunOut, with_stdout: bool) -> u64 {
     let mut d = if with_stdout { fnv_step(d, fnv(&mask_times(&o.stdout))) } else { d };
     d = fnv_step(d, fnv(&o.stderr));
     d = fnv_step(d, o.code as u64);
-    for (k, v) in &o.shim {
-        d = fnv_step(d, fnv(k.as_bytes()) ^ v);
+    // only counters that are a function of the plan and the schedule (the
+    // number of files opened after a failed write, or of repeated failed
+    // writes, can depend on the unscheduled --files printer thread)
+    for k in ["open_err", "opendir_err", "read_err", "read_eintr", "stdout_written"] {
+        d = fnv_step(d, fnv(k.as_bytes()) ^ o.fired(k));
     }
+    d = fnv_step(d, o.fired("epipe").min(1));
     if let Some(s) = &o.sched {
         d = fnv_step(d, s.hash);
     }
